@@ -170,13 +170,13 @@ func checkC17(c C17Case) (o Outcome) {
 	mut, cleanB := mk()
 	defer cleanB()
 	baseSteps := map[int]app.Step{}
-	ended := false
+	ended, blockedEnd := false, false
 	var prev *app.Snapshot
 	pendingAfterHalt, followed := false, false
 	nRefused := 0
 	for i, r := range c.merged() {
 		if r.refused {
-			if ended {
+			if ended && !blockedEnd {
 				continue // after the end of the session nothing is specified
 			}
 			mut.FlushOnErr = c.FlushOnErr
@@ -200,8 +200,14 @@ func checkC17(c C17Case) (o Outcome) {
 				return
 			}
 			if c.FlushOnErr && s.Flushed && s.FlushErr == "" {
-				o.Viol = viol("flush-after-refusal", "request %d: Flush after the refused input %s succeeded (nothing was executed)", i, describeVal(r.in))
-				return
+				// asking for output after a refused Exec: no output (checked above) and no trace
+				// (checked below); whether the call also reports an error is not demanded — after
+				// an earlier request there is an execution whose output has simply been fetched
+				if i == 0 {
+					o.Viol = viol("flush-after-refusal", "request %d: Flush after the refused input %s on an engine that has executed nothing succeeded", i, describeVal(r.in))
+					return
+				}
+				o.class("flush-after-refusal:no-output-no-error")
 			}
 			for _, cl := range s.Calls {
 				if cl.Kind == "call" || cl.Kind == "func" {
@@ -234,6 +240,9 @@ func checkC17(c C17Case) (o Outcome) {
 			}
 			continue
 		}
+		if ended && blockedEnd {
+			continue // only the refused inputs still go to the blocked stored session
+		}
 		if ended {
 			break
 		}
@@ -257,6 +266,13 @@ func checkC17(c C17Case) (o Outcome) {
 		}
 		if a.ExecErr != "" || a.FlushErr != "" || !a.Cont {
 			ended = true
+			// a stored session that ended blocked (TERMINATE set) is still a session: refused
+			// inputs must leave it as it is
+			if c.Mode.Kind == "persist" && a.After != nil && b.After != nil && terminateOf(b.After.Flags) && snapEqual(a.After, b.After) == "" {
+				blockedEnd = true
+				prev = b.After
+				o.class("refused-input-to-blocked-session")
+			}
 			continue
 		}
 		if d := snapEqual(a.After, b.After); d != "" {
